@@ -379,7 +379,10 @@ def handle : List String → Option String
           | .error e => pure ("ERR:r:" ++ showErr e)
           | .ok (h', tm', x') =>
             let (sf, _) := renderFieldsX h' tm' x'.fields []
-            pure s!"ok:D0({x'.numObs};[{sf}])"
+            -- the hypothesis of `read_write_time` and the right-hand side of its conclusion, for this dataset
+            let wx := if writableXB w.heap tm x lvl then "T" else "F"
+            let (sr, _) := renderFieldsX w.heap tm (restrictFields lvl x.fields) []
+            pure s!"ok:D0({x'.numObs};[{sf}])#W:{wx}#R:D0({x.numObs};[{sr}])"
     | _, _ => none
   | "c10" :: "rtbits" :: units :: rest => do
     -- `<ops> | B <token per object of the walk> | write d lvl`
